@@ -213,6 +213,12 @@ def gen_cases(rng, tier, h):
                         v[1] = INF
                 if nm.startswith("xfm_") and pn == "m":
                     v = [x if abs(x) != INF else 1.0 for x in v]
+                if nm.startswith("xfm_") and pn != "m" and i % 4 == 2 and len(v) == 6:
+                    # degenerate boxes: a single point, a segment, a rectangle (lower == upper on 3 / 2 / 1 axes)
+                    deg = rng.pick([(0, 1, 2), (0, 1, 2), (0, 1), (1, 2), (2,)])
+                    v = [x if abs(x) != INF else 1.0 for x in v]
+                    for ax in deg:
+                        v[3 + ax] = v[ax]
                 vals += v
             c.append(nm + " " + " ".join(f2h(x) for x in vals) if vals else nm)
             if len(c) == 20:
